@@ -98,6 +98,7 @@ type c15Cfg struct {
 	RetryMs     int    `json:"retry_info_ms"` // -1 = no RetryInfo
 	Auth        bool   `json:"server_authenticator"`
 	Creds       bool   `json:"client_sends_credentials"`
+	Rich        string `json:"payload_enrichment,omitempty"`
 	Empty       bool   `json:"empty_payload"`
 	Raw         string `json:"raw_request,omitempty"`
 }
@@ -254,6 +255,17 @@ func runC15(r *simkit.Run) {
 		}
 	} else {
 		payload = gen.Shape{MaxResources: 2, MaxScopes: 2, MaxMetrics: 2, MaxItems: 3, NonEmpty: true}.Gen(tp, ids, cfg.Signal)
+		if tp.Chance(2, 3) {
+			// the whole data model, not only the generator's small alphabet: every attribute value kind, ids, flags,
+			// timestamps, events, links, exemplars, histogram details (1 in 8: also non-finite doubles)
+			cfg.Rich = "rich"
+			extreme := tp.Chance(1, 8)
+			if extreme {
+				cfg.Rich = "rich+non-finite-doubles"
+			}
+			gen.Enrich(tp, payload, extreme)
+			r.Sample = cfg
+		}
 	}
 	sent := p.bytes(payload)
 	r.Events++
@@ -399,7 +411,7 @@ func runC15(r *simkit.Run) {
 		return
 	}
 	if !bytes.Equal(got, sent) {
-		r.Failf("delivery", "payload-differs/"+cfg.Transport+"/"+cfg.Signal, "the payload that reached the consumer differs from the one sent (%d vs %d bytes, %s %s)", len(got), len(sent), cfg.Transport, cfg.Compression)
+		r.Failf("delivery", "payload-differs/"+cfg.Transport+"/"+cfg.Signal, "the payload that reached the consumer differs from the one sent (%d vs %d bytes, %s %s); sent %s; received %s", len(got), len(sent), cfg.Transport, cfg.Compression, p.json(sent), p.json(got))
 	}
 	if outcome == nil {
 		if serr != nil {
